@@ -164,6 +164,9 @@ func (h *host) register() {
 		h.fnLog = append(h.fnLog, "noret()")
 		return nil, nil
 	})
+	h.dr.AddFunction("boom", func(args []*variable.Value) (*variable.Value, error) {
+		panic("the host function panics")
+	})
 	h.dr.AddCommand("hold", func(args []*variable.Value) <-chan error {
 		h.cmdLog = append(h.cmdLog, "hold()")
 		if h.holdPending {
